@@ -252,6 +252,96 @@ def namebound(run, fx):
         run.broken('VALIDATOR', 'name string read pointer', 'no m_nameData + offset pointer found in NameTable::getName', fn.where())
 
 
+def checkafteruse(run, fx):
+    """contradiction rule (Engler et al.): a parser that rejects on a test of an index or count has no business using that index before
+    the test.  In every function of the validator inventory, no table element `base[.. v ..]` is read at a point that dominates a
+    rejecting branch (one arm returns false / 0 / null at once) whose condition compares v itself (v alone or in plain arithmetic, not
+    inside another subscript or call), with v not redefined in between.  (`nAdvWid = phmtx[cLongHorMetrics-1]...` moved above the
+    `cLongHorMetrics == 0` guard reads in front of the hmtx table.)"""
+    import json, os, re
+    from .util import reaches_avoiding
+    inv = json.load(open(os.path.join(os.path.dirname(os.path.dirname(os.path.abspath(__file__))), 'tables', 'validators.json')))
+    fnset = sorted({k.split(' | ')[0] for k in inv['functions']})
+    nfn, ntests, bad = 0, 0, []
+    for q in fnset:
+        for fn in fx.fns_named(q):
+            nfn += 1
+            doms = fn.dominators()
+            rej = set()
+            for b in fn.blocks:
+                for e in fn.blocks[b]['el']:
+                    if e['k'] == 'ReturnStmt' and e.get('c') and fn.strip_all_casts(fn.N(e['c'][0])).get('v') in (0, False):
+                        rej.add(b)
+            uses = [(b, e, {x['vid'] for x in fn.walk(e['c'][1]) if x['k'] == 'DeclRefExpr' and x.get('vid') is not None})
+                    for b, e in fn.elements() if e['k'] == 'ArraySubscriptExpr']
+            for b in fn.blocks:
+                t = fn.blocks[b].get('term') or {}
+                if t.get('cond') is None or not any(s_ in rej for s_ in fn.succs(b) if s_ is not None):
+                    continue
+                names = {fn.render(x): x['vid'] for x in fn.walk(t['cond']) if x['k'] == 'DeclRefExpr' and x.get('vid') is not None}
+                cv = set()
+                for node, _pol in dom.atoms(fn, t['cond'], True):
+                    if node.get('k') != 'BinaryOperator' or node.get('op') not in ('==', '!=', '<', '>', '<=', '>='):
+                        continue
+                    for c_ in node['c']:
+                        side = fn.render(fn.strip_all_casts(fn.N(c_)))
+                        if re.fullmatch(r'[\w\s+\-*()]+', side):
+                            cv |= {vid for nm, vid in names.items() if re.search(r'\b%s\b' % re.escape(nm), side)}
+                if not cv:
+                    continue
+                ntests += 1
+                for ub, ue, uv in uses:
+                    if not (cv & uv):
+                        continue
+                    before = (ub == b and fn.pos_of[ue['i']] < fn.pos_of.get(t['cond'], 10 ** 9)) or (ub != b and ub in doms[b])
+                    if not before:
+                        continue
+                    vids = cv & uv
+                    redefs = [x for _, x in fn.elements() if x['k'] in ('BinaryOperator', 'CompoundAssignOperator', 'UnaryOperator') and x.get('op') in ('=', '+=', '-=', 'pre++', 'post++', 'pre--', 'post--')
+                              and fn.strip_all_casts(fn.N(x['c'][0])).get('vid') in vids]
+                    cond_el = fn.N(t['cond'])
+                    if redefs and not reaches_avoiding(fn, ue, cond_el, avoid=redefs):
+                        continue
+                    bad.append((fn, ue, fn.render(ue)[:60], fn.render(cond_el)[:80]))
+    inst = 'no table element is read through an index before the test that rejects on it'
+    if nfn < 40 or ntests < 30:
+        run.broken('VALIDATOR', inst, 'only %d inventory functions / %d rejecting index tests found' % (nfn, ntests))
+    elif bad:
+        fn, ue, u, c = bad[0]
+        run.violated('VALIDATOR', inst, fn.loc(ue), '%s reads `%s` and only afterwards rejects on `%s`: for the values the test exists to reject, the read is outside the table' % (fn.q, u, c))
+    else:
+        run.held('VALIDATOR', inst, '', '%d rejecting tests of an index or count in %d parser functions: no read through the tested variable dominates its test' % (ntests, nfn))
+
+
+def extentfirst(run, fx):
+    """the pass is delimited before anything decodes it: in Pass::readPass every rejection that compares against the end of the pass
+    dominates every consumer of the pass bytes -- the Machine::Code constructor (the bytecode decoder walks to the end pointer it is
+    given) and readRanges / readRules / readStates.  A decoder started before the last extent test runs over offsets no test has yet
+    compared with the end of the pass (and of the Silf table)."""
+    fn = fx.one('graphite2::Pass::readPass')
+    doms = fn.dominators()
+    tests = [e for e in calls_in(fn, 'graphite2::Error::test') if 'pass_end' in fn.render(e)]
+    cons = [e for _, e in fn.elements() if e['k'] in ('CallExpr', 'CXXMemberCallExpr', 'CXXConstructExpr', 'CXXTemporaryObjectExpr')
+            and any(k in (e.get('fq') or '') for k in ('Machine::Code::Code', 'Pass::readRules', 'Pass::readStates', 'Pass::readRanges')) and not e.get('copyctor') and not e.get('movector')]
+    cons = [e for e in cons if (e.get('args') or e.get('c'))]
+    inst = 'every extent test of readPass precedes every decoder'
+    if len(tests) < 5 or len(cons) < 4:
+        run.broken('VALIDATOR', inst, 'expected >= 5 tests against pass_end and the 4 consumers, found %d / %d' % (len(tests), len(cons)), fn.where())
+        return
+    bad = []
+    for c in cons:
+        for t in tests:
+            bt, bc = fn.block_of[t['i']], fn.block_of[c['i']]
+            if not ((bt == bc and fn.pos_of[t['i']] < fn.pos_of[c['i']]) or (bt != bc and bt in doms[bc])):
+                bad.append((c, t))
+    if bad:
+        c, t = bad[0]
+        run.violated('VALIDATOR', inst, fn.loc(c), 'Pass::readPass starts %s at line %s before the extent test `%s` (line %s) has run: the decoder reads the pass up to an end pointer that has not '
+                     'been compared with the end of the pass yet' % ((c.get('fq') or '').split('graphite2::')[-1], c['ln'], fn.render(t)[:70], t['ln']))
+    else:
+        run.held('VALIDATOR', inst, fn.where(), '%d tests against pass_end dominate all %d consumers' % (len(tests), len(cons)))
+
+
 def narrowinit(run, fx):
     """an offset or size computed from a count read from the font (`header + sizeof(T) * (count + 1)`) must not be held in a type it
     can overflow: no local of at most 16 bits in src/ is initialised, by an implicit narrowing conversion, from a wider non-constant
@@ -294,6 +384,8 @@ def run(run):
     vm = R.get_vm(run)
     fx = vm.fx
     narrowinit(run, fx)
+    checkafteruse(run, fx)
+    extentfirst(run, fx)
     namebound(run, fx)
     from . import c13
     c13.narrowread(run, fx)
